@@ -5,6 +5,7 @@ import itertools
 
 import numpy as np
 
+from . import gen
 from .gen import NOSITE
 
 OFFGRID = -999999
@@ -110,6 +111,7 @@ def record_pipeline(b, world, intended, *, inner_fraction, ms=(0,), ks=(), radiu
     if traj is None:
         traj = world.trajectory(intended)
     radius = world.radius if radius is None else radius
+    gen.perturb(traj, world.rng)
     tr = traj.transitions_between_sites(world.structure, floating, site_radius=radius,
                                         site_inner_fraction=inner_fraction)
     H = hist_of(tr.states, tr.inner_states)
